@@ -13,44 +13,60 @@ Open Scope list_scope.
 
 (** what "still valid" means for a leaf: immutable File/FileSet always; otherwise the current hash
     exists and equals the recorded one; a Handle by its flag *)
-Theorem C04_still_valid_meaning : forall H v fs l, leaf_valid H v fs l = VTrue <-> leaf_still_valid H v fs l.
+Theorem C04_still_valid_meaning : forall H ev v fs l, full ev ->
+  leaf_valid H ev v fs l = VTrue <-> leaf_still_valid H v fs l.
 Proof. exact leaf_valid_true. Qed.
 
 (** 1. (as shipped and repaired) a backend cache hit is used only if the result is not an error and
     every external value in it is still valid *)
-Theorem C04_replay_only_if_valid : forall H v fs ct e r, backend_hit ct ->
-  get_cache H v fs ct e r = GHit -> e = false /\ Forall (leaf_still_valid H v fs) (visit r).
+Theorem C04_replay_only_if_valid : forall H ev v fs ct e r, full ev -> backend_hit ct ->
+  get_cache H ev v fs ct e r = GHit -> e = false /\ Forall (leaf_still_valid H v fs) (visit r).
 Proof. exact replay_only_if_valid. Qed.
 
 (** 2. (repaired ContentFile) exactly then; otherwise the lookup answers "miss" -- it never raises *)
-Theorem C04_replay_iff_valid_fixed : forall H v fs ct r, content_missing_total v = true -> backend_hit ct ->
-  (get_cache H v fs ct false r = GHit <-> Forall (leaf_still_valid H v fs) (visit r)) /\
-  (get_cache H v fs ct false r = GMiss <-> ~ Forall (leaf_still_valid H v fs) (visit r)).
+Theorem C04_replay_iff_valid_fixed : forall H ev v fs ct r, full ev -> content_missing_total v = true -> backend_hit ct ->
+  (get_cache H ev v fs ct false r = GHit <-> Forall (leaf_still_valid H v fs) (visit r)) /\
+  (get_cache H ev v fs ct false r = GMiss <-> ~ Forall (leaf_still_valid H v fs) (visit r)).
 Proof. exact replay_iff_valid. Qed.
-Theorem C04_lookup_never_raises_fixed : forall H v fs ct e r, content_missing_total v = true ->
-  get_cache H v fs ct e r <> GRaise.
+Theorem C04_lookup_never_raises_fixed : forall H ev v fs ct e r, content_missing_total v = true ->
+  get_cache H ev v fs ct e r <> GRaise.
 Proof. exact get_cache_no_raise. Qed.
 
 (** as shipped: a cached result holding a ContentFile whose file was deleted makes the lookup raise *)
-Theorem C04_refuted_contentfile_deleted : forall H p h,
-  get_cache H shipped [] CT_SINGLE false (NLeaf (LExt (mkV FContent (TFile p) (Some h)))) = GRaise.
+Theorem C04_refuted_contentfile_deleted : forall H ev p h,
+  get_cache H ev shipped [] CT_SINGLE false (NLeaf (LExt (mkV FContent (TFile p) (Some h)))) = GRaise.
 Proof. exact contentfile_deleted_raises_shipped. Qed.
 (** ... and this is the only way: the lookup raises only if some ContentFile leaf is missing *)
 Theorem C04_hash_raises_only_missing_contentfile : forall H v f fs t, calc_target H v f fs t = None ->
   content_missing_total v = false /\ f = FContent /\ exists p, t = TFile p /\ fs_get fs p = None.
 Proof. exact calc_none_only_missing_contentfile. Qed.
 
+(** 1b. Expressions as cached results (a task returning `other(x, data=f)`): [leaf_still_valid] of an
+    expression leaf demands that its task is registered and that every value nested in its positional
+    AND keyword arguments is still valid; theorems 1-3 hold for the validity walk that covers both
+    ([full ev], what translate/tr_expr.py must find in redun/expression.py).  A walk over the
+    positional arguments only never looks at keyword arguments, and then a result holding a File by
+    keyword whose file changed is replayed: *)
+Theorem C04_expr_kwargs_unchecked_when_args_only : forall H ev v fs k kw args, walks_kwargs ev k = false ->
+  leaf_valid H ev v fs (LExpr k true kw args) = vall (leaf_valid H ev v fs) args.
+Proof. exact expr_kwargs_unchecked. Qed.
+Theorem C04_refuted_expr_args_only : forall H ev v p, task_walks_kwargs ev = false ->
+  let r := NLeaf (LExpr ETask true [LExt (stale_file H p)] []) in
+  get_cache H ev v [] CT_SINGLE false r = GHit /\ ~ Forall (leaf_still_valid H v []) (visit r) /\
+  leaf_valid H full_ev v [] (LExt (stale_file H p)) = VFalse.
+Proof. exact expr_args_only_refuted. Qed.
+
 (** the other branches of _get_cache: a same-execution (CSE) hit is used exactly when every Handle
     in it is still valid (Scheduler._has_valid_handles, since the C25 repair); file values are not
     re-checked within one execution -- outside this property's histories, which interleave changes
     between runs --; errors are never replayed from the backend *)
-Theorem C04_cse_checks_handles_only : forall H v fs e r,
-  get_cache H v fs CT_CSE e r = if handles_valid r then GHit else GMiss.
+Theorem C04_cse_checks_handles_only : forall H ev v fs e r,
+  get_cache H ev v fs CT_CSE e r = if handles_valid r then GHit else GMiss.
 Proof. exact cse_checks_handles_only. Qed.
 Theorem C04_handles_valid_meaning : forall r,
   handles_valid r = true <-> Forall (fun l => forall b, l = LHandle b -> b = true) (visit r).
 Proof. exact handles_valid_spec. Qed.
-Theorem C04_errors_not_replayed : forall H v fs ct r, ct <> CT_CSE -> get_cache H v fs ct true r = GMiss.
+Theorem C04_errors_not_replayed : forall H ev v fs ct r, ct <> CT_CSE -> get_cache H ev v fs ct true r = GMiss.
 Proof. exact errors_not_replayed. Qed.
 
 (** 3. Histories: any task writing any outputs, any state (any filesystem, any cached result --
@@ -58,17 +74,17 @@ Proof. exact errors_not_replayed. Qed.
     Repaired: no step raises; a run replays iff all external values are valid, else it executes
     once more; and whatever a run returns, replayed or recomputed, is valid / recorded against the
     filesystem as it is after the run. *)
-Theorem C04_run_never_raises_fixed : forall H v tk st o st', content_missing_total v = true ->
-  hstep H v tk st o <> HRaised st'.
+Theorem C04_run_never_raises_fixed : forall H ev v tk st o st', content_missing_total v = true ->
+  hstep H ev v tk st o <> HRaised st'.
 Proof. exact run_never_raises. Qed.
-Theorem C04_run_decides_by_validity_fixed : forall H v tk st mts r, content_missing_total v = true ->
+Theorem C04_run_decides_by_validity_fixed : forall H ev v tk st mts r, full ev -> content_missing_total v = true ->
   h_cache st = Some r ->
-  (Forall (leaf_still_valid H v (h_fs st)) (visit r) -> hstep H v tk st (HRun mts) = HReplayed st r) /\
+  (Forall (leaf_still_valid H v (h_fs st)) (visit r) -> hstep H ev v tk st (HRun mts) = HReplayed st r) /\
   (~ Forall (leaf_still_valid H v (h_fs st)) (visit r) ->
-     exists st' r', hstep H v tk st (HRun mts) = HExecuted st' r' /\ exec_task H v tk st mts = HExecuted st' r').
+     exists st' r', hstep H ev v tk st (HRun mts) = HExecuted st' r' /\ exec_task H v tk st mts = HExecuted st' r').
 Proof. exact run_decides_by_validity. Qed.
-Theorem C04_run_result_current_fixed : forall H v tk st mts, content_missing_total v = true ->
-  match hstep H v tk st (HRun mts) with
+Theorem C04_run_result_current_fixed : forall H ev v tk st mts, full ev -> content_missing_total v = true ->
+  match hstep H ev v tk st (HRun mts) with
   | HReplayed st' r => st' = st /\ Forall (leaf_still_valid H v (h_fs st)) (visit r)
   | HExecuted st' r => Forall (leaf_recorded_now H v (h_fs st')) (visit r) /\ h_execs st' = S (h_execs st)
   | HRaised _ | HChanged _ => False
@@ -85,10 +101,10 @@ Theorem C04_written_contents : forall fs files mts p d, NoDup (map fst files) ->
 Proof. exact (written_contents Hid). Qed.
 
 (** as shipped: run, delete the ContentFile output, run again -> the second run raises *)
-Theorem C04_run_refuted_as_shipped : forall H p d,
+Theorem C04_run_refuted_as_shipped : forall H ev p d,
   let st0 := mkH [] None 0 in
-  let st1 := hrun H shipped (w_task p d) st0 [HRun []; HRemove p] in
-  h_execs st1 = 1%nat /\ hstep H shipped (w_task p d) st1 (HRun []) = HRaised st1.
+  let st1 := hrun H ev shipped (w_task p d) st0 [HRun []; HRemove p] in
+  h_execs st1 = 1%nat /\ hstep H ev shipped (w_task p d) st1 (HRun []) = HRaised st1.
 Proof. exact run_raises_shipped. Qed.
 
 (** Non-vacuity (repaired variant, identity hash): a task returning a ContentFile, a Dir and a plain
@@ -98,16 +114,16 @@ Definition ex_task : task :=
    OutDir FBase [1%nat] [(mkF [1%nat] 0%nat, bs [98]%N); (mkF [1%nat;2%nat] 1%nat, bs [99]%N)];
    OutPlain].
 Example C04_nonvacuous :
-  let st1 := hrun Hid fixed ex_task (mkH [] None 0) [HRun []] in
-  let st2 := hrun Hid fixed ex_task st1 [HRun []; HRemove (mkF [0%nat] 0%nat)] in
+  let st1 := hrun Hid full_ev fixed ex_task (mkH [] None 0) [HRun []] in
+  let st2 := hrun Hid full_ev fixed ex_task st1 [HRun []; HRemove (mkF [0%nat] 0%nat)] in
   h_execs st1 = 1%nat /\ h_execs st2 = 1%nat /\
   (exists r, h_cache st2 = Some r /\ ~ Forall (leaf_still_valid Hid fixed (h_fs st2)) (visit r)) /\
-  h_execs (hrun Hid fixed ex_task st2 [HRun []]) = 2%nat /\
-  option_map content (fs_get (h_fs (hrun Hid fixed ex_task st2 [HRun []])) (mkF [0%nat] 0%nat)) = Some (bs [97]%N).
+  h_execs (hrun Hid full_ev fixed ex_task st2 [HRun []]) = 2%nat /\
+  option_map content (fs_get (h_fs (hrun Hid full_ev fixed ex_task st2 [HRun []])) (mkF [0%nat] 0%nat)) = Some (bs [97]%N).
 Proof.
   split; [vm_compute; reflexivity|]. split; [vm_compute; reflexivity|]. split.
   - eexists. split; [vm_compute; reflexivity|]. intros F.
-    apply (proj2 (all_valid_true Hid fixed _ _)) in F. vm_compute in F. discriminate F.
+    apply (proj2 (all_valid_true Hid full_ev fixed _ _ (conj eq_refl eq_refl))) in F. vm_compute in F. discriminate F.
   - split; vm_compute; reflexivity.
 Qed.
 
